@@ -13,6 +13,7 @@ import (
 	"errors"
 	"fmt"
 	"math/rand"
+	"regexp"
 	"strconv"
 	"strings"
 	"time"
@@ -149,6 +150,9 @@ func (g *c17x) terminalList(malformed bool) engine.Term {
 func (g *c17x) nonTerminal() engine.Term {
 	name := pick(g.r, []string{"a", "b", "c", "nt", "call", "phrase", "foo"})
 	n := g.r.Intn(4)
+	if g.r.Intn(6) == 0 { // many arguments (the interesting capacities of Go slices: 4..6, 9..14)
+		n = 4 + g.r.Intn(11)
+	}
 	if n == 0 {
 		return atom(pick(g.r, []string{"a", "b", "c", "nt", "foo"}))
 	}
@@ -599,6 +603,60 @@ func (g *c17g) body(d int, consumed int) *gb {
 	}
 }
 
+// builtList: a terminal list that is built cell by cell by goals of the rule itself — its tails are
+// variables bound by another {}-goal (before or after the cell is made), or it is reached through
+// an alias — and then used as a body: {V = [x|T]}, {T = [y]}, V.  Abstractly V is just [x,y]; in
+// the engine its spine runs through bindings of the environment.
+func (g *c17g) builtList() *gb {
+	g.feat["builtlist"] = true
+	n := 2 + g.r.Intn(2)
+	v := engine.Term(engine.NewVariable())
+	var goals []engine.Term
+	cur := v
+	for i := 0; i < n; i++ {
+		e := engine.Term(atom(pick(g.r, c17Alphabet)))
+		if i == n-1 {
+			goals = append(goals, compound("=", cur, engine.List(e)))
+		} else {
+			tl := engine.NewVariable()
+			goals = append(goals, compound("=", cur, engine.PartialList(tl, e)))
+			cur = tl
+		}
+	}
+	switch g.r.Intn(4) {
+	case 0: // tails bound before the cells are made
+		for i, j := 0, len(goals)-1; i < j; i, j = i+1, j-1 {
+			goals[i], goals[j] = goals[j], goals[i]
+		}
+	case 1: // alias
+		w := engine.NewVariable()
+		goals = append(goals, compound("=", w, v))
+		v = w
+	}
+	var items []*gb
+	if g.r.Intn(2) == 0 { // one {}-goal each, or one conjunction
+		for _, gl := range goals {
+			items = append(items, &gb{kind: "block", g: gl})
+		}
+	} else {
+		c := goals[len(goals)-1]
+		for i := len(goals) - 2; i >= 0; i-- {
+			c = compound(",", goals[i], c)
+		}
+		items = append(items, &gb{kind: "block", g: c})
+	}
+	use := &gb{kind: "var", g: v}
+	switch g.r.Intn(5) {
+	case 0:
+		use = &gb{kind: "not", kids: []*gb{{kind: "not", kids: []*gb{use}}}}
+	case 1:
+		use = &gb{kind: "alt", kids: []*gb{g.terminals(), use}}
+	case 2:
+		use = &gb{kind: "phrase", g: v}
+	}
+	return seqOf(append(items, use)...)
+}
+
 func (g *c17g) ntCall(n *c17nt) *gb {
 	return &gb{kind: "nt", name: n.name, ts: g.callArgs(n, n.arity)}
 }
@@ -639,6 +697,9 @@ func (g *c17g) leaf(consumed int) *gb {
 			n := pick(g.r, cands)
 			as := g.callArgs(n, n.arity)
 			extra := 1 + g.r.Intn(n.arity)
+			if extra > 5 { // call/N exists up to N = 8: closure, extra arguments, S0, S
+				extra = 5
+			}
 			closure := engine.Term(atom(n.name))
 			if n.arity-extra > 0 {
 				closure = compound(n.name, as[:n.arity-extra]...)
@@ -656,6 +717,9 @@ func (g *c17g) leaf(consumed int) *gb {
 		g.feat["varbody"] = true
 		if g.bodyV != nil {
 			return &gb{kind: "var", g: g.bodyV}
+		}
+		if g.r.Intn(2) == 0 {
+			return g.builtList()
 		}
 		v := g.newVar()
 		return seqOf(&gb{kind: "block", g: compound("=", v, g.dataBody())}, &gb{kind: "var", g: v})
@@ -710,6 +774,12 @@ func genC17Grammar(r *rand.Rand, maxLen int) string {
 	names := []string{"a", "b", "c", "d", "e"}
 	for i := 0; i < k; i++ {
 		n := &c17nt{name: names[i], arity: []int{0, 0, 0, 1, 1, 2}[r.Intn(6)]}
+		switch r.Intn(12) {
+		case 0:
+			n.arity = 4 + r.Intn(3)
+		case 1:
+			n.arity = 9 + r.Intn(4)
+		}
 		if n.arity >= 1 && r.Intn(5) == 0 {
 			n.bodyArg = true
 		}
@@ -992,6 +1062,9 @@ func c17Solve(vm *engine.VM, goal, template engine.Term, bud *c17Budget) string 
 	return strings.Join(rows, " | ")
 }
 
+// a {}-goal V = [t|T]: a list cell whose tail is bound by another goal of the rule
+var c17BuiltListRe = regexp.MustCompile(`C2:= V\d+ C2:\. A[xyz] V\d+`)
+
 func runC17Lang(payload string) string {
 	parts := strings.Split(payload, " ; ")
 	flags := map[string]string{}
@@ -1096,6 +1169,10 @@ func runC17Lang(payload string) string {
 			return ">20"
 		}
 	}
-	return strings.Join(res, " ; ") + fmt.Sprintf(" ### nt=%d load=%s str=%s gen=%s len=%d cut=%d not=%d ite=%d pushback=%d rules=%d accepted=%s parsed_prefix=%s",
-		nt, flags["load"], flags["str"], flags["gen"], maxLen, cut, not, ite, pb, len(rules), bucket(accepted), bucket(withRem))
+	builtList := 0
+	if c17BuiltListRe.MatchString(payload) {
+		builtList = 1
+	}
+	return strings.Join(res, " ; ") + fmt.Sprintf(" ### nt=%d load=%s str=%s gen=%s len=%d cut=%d not=%d ite=%d pushback=%d rules=%d accepted=%s parsed_prefix=%s built_list=%d",
+		nt, flags["load"], flags["str"], flags["gen"], maxLen, cut, not, ite, pb, len(rules), bucket(accepted), bucket(withRem), builtList)
 }
